@@ -41,6 +41,8 @@ Protocol (one case = one schema + one Chaperone):
                                          INNER_TEXT on the very instance it was running for: the inner call's own report
   [env H <fn> <text> ok <text>|raise <Class>]   what a co-chaperone does on a text (evaluated by the harness)
   [env G <fn> <truthy> ok|raise <Class>]        truthiness of an on_misfold callback and what it does
+  via m|t|o                              the constructors below take the classes from the defining modules / `operon_ai` /
+                                         `operon_ai.organelles` + `operon_ai.healing` (what a caller imports)
   loop                                   ChaperoneLoop(generator, chaperone=<addressed instance>, schema=<current class>) is
                                          constructed and kept alive (no heal): the library's own wrapper got the instance
   agent                                  BioAgent(...).chaperone becomes a new addressed instance (a Chaperone the library's own
@@ -743,6 +745,11 @@ class C11(Prop):
         import operon_ai.core.agent as agent_mod
         import operon_ai.state.metabolism as atp_mod
         self.agent_mod, self.atp_mod = agent_mod, atp_mod
+        # the names a caller imports: the defining modules (m), the package top level (t), the sub-packages (o)
+        import operon_ai as top_pkg
+        import operon_ai.organelles as org_pkg
+        import operon_ai.healing as heal_pkg
+        self.exports = {"m": (m, loop_mod), "t": (top_pkg, top_pkg), "o": (org_pkg, heal_pkg)}
 
     @staticmethod
     def ids_of(tok):
@@ -787,11 +794,13 @@ class C11(Prop):
         except Exception:
             return None
 
-    def strategies_of(self, tok):
+    def strategies_of(self, tok, FS=None):
         if tok == "none":
             return None
         if tok == "-":
             return []
+        if FS is not None:
+            return [getattr(FS, STRAT_LETTERS[c]) for c in tok if c in STRAT_LETTERS]
         return [self.strat[c] for c in tok if c in self.strat]
 
     # --- implementation -------------------------------------------------------------------------------------
@@ -827,6 +836,14 @@ class C11(Prop):
         hooklog = []             # user callbacks invoked during the current fold
         h_done = set()
         wrappers = []            # the library's own wrapper objects that were handed an instance stay alive
+        via = ["m"]              # through which export the caller reaches the classes (`via` line)
+
+        class _Names:
+            """Chaperone / FoldingStrategy / ChaperoneLoop as the export in force names them"""
+            Chaperone = property(lambda _s: self.exports[via[0]][0].Chaperone)
+            FoldingStrategy = property(lambda _s: self.exports[via[0]][0].FoldingStrategy)
+            ChaperoneLoop = property(lambda _s: self.exports[via[0]][1].ChaperoneLoop)
+        names = _Names()
         loops = {}               # (instance, schema class) -> the ChaperoneLoop of the last healing run (`healr` re-uses it)
 
         reent = {"depth": 0, "off": False, "inner": []}
@@ -939,7 +956,7 @@ class C11(Prop):
                 emit(line, "ok")
             elif t[0] == "new" and len(t) == 2:
                 try:
-                    ch = m.Chaperone(strategies=self.strategies_of(t[1]), silent=True)
+                    ch = names.Chaperone(strategies=self.strategies_of(t[1], names.FoldingStrategy), silent=True)
                     chs.append(ch)
                     owns.append(list(t[1]) if t[1] not in ("none", "-") else list("selr"))
                     ctor = "".join(owns[-1])
@@ -948,7 +965,7 @@ class C11(Prop):
                     emit(line, f"raise:{type(e).__name__}")
             elif t[0] == "newsub" and len(t) == 4:
                 try:
-                    Sub = type("TunedChaperone", (m.Chaperone,), {})
+                    Sub = type("TunedChaperone", (names.Chaperone,), {})
                     self.apply_tables(Sub, t[2], t[3])
                     ch = Sub(strategies=self.strategies_of(t[1]), silent=True)
                     chs.append(ch)
@@ -967,7 +984,7 @@ class C11(Prop):
                     continue
                 try:
                     real, letters = caller_lists[j]
-                    ch = m.Chaperone(strategies=real, silent=True)
+                    ch = names.Chaperone(strategies=real, silent=True)
                     chs.append(ch)
                     owns.append(letters if letters else list("selr"))     # a non-empty list object is shared, not copied
                     owns_copy[len(chs) - 1] = list(owns[-1])
@@ -1029,7 +1046,7 @@ class C11(Prop):
             elif t[0] == "newh" and len(t) == 4 and (t[2] == "-" or t[2] in CO_FNS) and (t[3] == "-" or t[3] in MISFOLD_FNS):
                 try:
                     cell, cellm = [None, S], [None, None]      # on_misfold is per instance: it folds for the class in force
-                    ch = m.Chaperone(strategies=self.strategies_of(t[1]),
+                    ch = names.Chaperone(strategies=self.strategies_of(t[1], names.FoldingStrategy),
                                      co_chaperones=({S: make_co(t[2], cell)} if t[2] != "-" else None),
                                      on_misfold=(make_mf(t[3], cellm) if t[3] != "-" else None), silent=True)
                     cell[0] = cellm[0] = ch
@@ -1043,12 +1060,20 @@ class C11(Prop):
                     emit(line, "ok")
                 except Exception as e:
                     emit(line, f"raise:{type(e).__name__}")
+            elif t[0] == "via" and len(t) == 2 and t[1] in self.exports:
+                # from here on the caller takes Chaperone / FoldingStrategy / ChaperoneLoop from another export of the package
+                via[0] = t[1]
+                try:
+                    names.Chaperone, names.FoldingStrategy, names.ChaperoneLoop
+                    emit(line, "ok")
+                except Exception as e:
+                    emit(line, f"raise:{type(e).__name__}")
             elif t[0] == "loop" and len(t) == 1:
                 # the library's healing wrapper is handed the addressed instance for the current schema class; nothing is
                 # healed - the caller goes on using the validator directly
                 c = current()
                 try:
-                    wrappers.append(self.loop_mod.ChaperoneLoop(generator=lambda prompt, error_context=None: "",
+                    wrappers.append(names.ChaperoneLoop(generator=lambda prompt, error_context=None: "",
                                                                 chaperone=c, schema=S, silent=True))
                     emit(line, "ok")
                 except Exception as e:
@@ -1343,7 +1368,7 @@ class C11(Prop):
                 try:
                     loop = loops.get((inst_i, id(S))) if t[0] == "healr" else None
                     if loop is None:
-                        loop = self.loop_mod.ChaperoneLoop(generator=scripted, chaperone=ch, schema=S, max_retries=int(t[1]),
+                        loop = names.ChaperoneLoop(generator=scripted, chaperone=ch, schema=S, max_retries=int(t[1]),
                                                            confidence_decay=float(Fraction(t[2])), silent=True)
                         loops[(inst_i, id(S))] = loop
                     else:
@@ -1804,9 +1829,10 @@ class C11(Prop):
             typo = rng.random() < 0.25       # string values with typographic punctuation / invisible characters
             wrapped = rng.random() < 0.3     # the instance is (also) handed to the library's own wrappers
             ctor_strats = self.rand_strats(rng) if rng.random() < 0.25 else "none"
-            lines = ["schema " + self.spec_of(fields),
+            lines = ["schema " + self.spec_of(fields)] + ([f"via {rng.choice('to')}"] if rng.random() < 0.15 else []) + [
                      (f"newh {ctor_strats} {self.rand_co(rng)} {self.rand_mf(rng)}" if hooked and rng.random() < 0.5
                       else "new " + ctor_strats)]
+            lines = [l for l in lines if l]
             # a history on ONE Chaperone: several texts, changing strategy lists, repeats, resets in between;
             # in a third of the cases several Chaperones are alive and one of them has its public `strategies`
             # list edited in place
@@ -2107,6 +2133,14 @@ class C11(Prop):
                 L += ["stats"]
                 wrap_cases.append({"lines": L, "note": "an instance handed to the library's own wrappers (ChaperoneLoop constructed / run, "
                                                        "BioAgent's organelle), then used directly on typographic / invisible characters"})
+        for v in "to":
+            for ctor in ["none", "rs", "-"]:
+                L = [f"schema {wspec}", f"via {v}", f"new {ctor}"]
+                for d in docs[:6] + docs[-1:]:
+                    L += [f"fold {hexs(d)} none", f"foldx {hexs(d)} none"]
+                L += ["loop", f"heal 1 1/10 {hexs('nope')},{hexs(docs[0])}", f"foldx {hexs(docs[1])} ls", "stats",
+                      f"newh {ctor} - ok", f"foldx {hexs(docs[0])} none", f"fold {hexs('nope')} none", "stats"]
+                wrap_cases.append({"lines": L, "note": "the classes as the package exports them (operon_ai, operon_ai.organelles, operon_ai.healing)"})
         for co in ["redact", "brace"]:
             clean, prose3, bad = '{"s": "v12", "a": 4}', 'so {"s": "w", "a": 34} ok', "nope"
             # two Chaperones the library constructed itself (two agents' organelles), a third one of the caller's: callbacks
